@@ -126,7 +126,7 @@ func pickRef(v *sym.V, g *gen.G, e error) error {
 // H_C08_Laws: totality, reflexivity, IsAny = disjunction, nil handling, Mark.
 func H_C08_Laws(v *sym.V) {
 	g := newG(v, sym.REGNN)
-	b := g.BuildUpTo("e", v.Param("D", 2), gen.AllLeaves, gen.AllWrappers)
+	b := build(v, g, "e")
 	e := b.Err
 	r := pickRef(v, g, e)
 	r2 := sentinelPool[v.Choice("pool2", 2)]
@@ -152,4 +152,29 @@ func H_C08_Monotone(v *sym.V) {
 	is := errors.Is(b.Err, r)
 	w := g.Wrap("w", b, gen.Cat(gen.MsgWrappers, gen.AnnotWrappers, gen.ForeignWrappers))
 	v.Assert("monotone@"+w.Kinds[0].String(), sym.Implies(is, errors.Is(w.Err, r)))
+}
+
+// H_C08_IsAnyMany: IsAny over reference lists that mix nil, comparable and
+// non-comparable references equals the disjunction of Is, and never panics.
+func H_C08_IsAnyMany(v *sym.V) {
+	g := newG(v, sym.REGNN)
+	b := g.Leaf("e", []gen.Kind{gen.LNew, gen.LStd, gen.LUserNonComparable, gen.LUserIs, gen.LCtxCanceled, gen.LJoin})
+	if v.Choice("wrapped", 2) == 1 {
+		b = g.Wrap("w", b, []gen.Kind{gen.WWrap, gen.WUserPrefix, gen.WMark})
+	}
+	e := b.Err
+	pool := []error{nil, sentinelPool[0], gen.UserNonComparable{Msg: g.StrU("nc")}, &gen.UserIs{Msg: g.StrU("ui")}, errors.UnwrapAll(e), sentinelPool[4]}
+	var refs []error
+	want := false
+	n := 2 + v.Choice("n", 2)
+	for i := 0; i < n; i++ {
+		r := pool[v.Choice("ref", len(pool))]
+		refs = append(refs, r)
+		if r != nil {
+			want = sym.Or(want, errors.Is(e, r))
+		}
+	}
+	var got bool
+	guarded(v, "isany-nopanic", func() { got = errors.IsAny(e, refs...) })
+	v.Assert("isany==disjunction", got == want)
 }
